@@ -3,7 +3,7 @@
    output as destruction would close it, then the block still buffered) are exactly the submitted records with their
    hint-disabled members removed, in submission order, each exactly once. *)
 Require Import Base Cbor EncoderModel DecoderModel Schema SchemaProofs Timestamp Block BlockProofs Exporter ExporterProofs
-               E2ESpec BlockDecode ViewProofs BlockRead FileProofs.
+               E2ESpec BlockDecode ViewProofs AecView BlockRead FileProofs.
 Local Open Scope N_scope.
 
 (* the generic readers only look at the nine lists *)
@@ -36,6 +36,8 @@ Section TblExt.
            end.
     reflexivity.
   Qed.
+  Lemma gen_aec_ext kc : gen_aec t1 kc = gen_aec t2 kc.
+  Proof. unfold gen_aec, obind. rewrite tl_get_ext. reflexivity. Qed.
 End TblExt.
 
 Lemma rb_tables_lst b i : lst (nth_o (r_tables (rb_of b)) i) = lst (nth_o (tbs_of_tables (b_tb b)) i).
@@ -53,6 +55,18 @@ Lemma rb_view_qr_of b : rb_view_qr (rb_of b) = blk_view_qr b.
 Proof. unfold rb_view_qr, blk_view_qr. cbn [r_qrs rb_of]. apply map_ext. intros it. apply gen_qr_ext. apply rb_tables_lst. Qed.
 Lemma rb_view_mm_of b : rb_view_mm (rb_of b) = blk_view_mm b.
 Proof. unfold rb_view_mm, blk_view_mm. cbn [r_mms rb_of]. apply map_ext. intros it. apply gen_mm_ext. apply rb_tables_lst. Qed.
+
+Definition rb_view_aec (rb : rblock) : list (option val) := map (gen_aec (r_tables rb)) (r_aecs rb).
+Lemma rb_view_aec_of b : rb_view_aec (rb_of b) = blk_view_aec b.
+Proof. unfold rb_view_aec, blk_view_aec. cbn [r_aecs rb_of]. apply map_ext. intros it. apply gen_aec_ext. apply rb_tables_lst. Qed.
+(* total count of decoded key k over the blocks read from one file *)
+Definition file_aec_total (k : list (option val)) (pb : val * list blk) : N :=
+  fold_right (fun rb a => dec_total k (rb_view_aec rb) + a) 0 (map rb_of (snd pb)).
+Lemma file_aec_total_eq k pb : file_aec_total k pb = fold_right (fun b a => dec_total k (blk_view_aec b) + a) 0 (snd pb).
+Proof. unfold file_aec_total. destruct pb as [p bs]. cbn [snd]. induction bs as [|b bs IH]; cbn [map fold_right]; [reflexivity|]. rewrite rb_view_aec_of, IH. reflexivity. Qed.
+Lemma fold_total_flat k (l : list (val * list blk)) :
+  fold_right (fun b a => dec_total k (blk_view_aec b) + a) 0 (flat_map snd l) = fold_right (fun pb a => file_aec_total k pb + a) 0 l.
+Proof. induction l as [|pb l IH]; cbn [flat_map fold_right]; [reflexivity|]. rewrite fold_total_app, IH, file_aec_total_eq. reflexivity. Qed.
 
 Definition file_view_qr (pb : val * list blk) : list (option val) := flat_map rb_view_qr (map rb_of (snd pb)).
 Definition file_view_mm (pb : val * list blk) : list (option val) := flat_map rb_view_mm (map rb_of (snd pb)).
@@ -73,19 +87,34 @@ Theorem end_to_end pre ops : typed_pre pre -> adm0 pre ops -> typed_x (xrun (x_n
     Forall reads_back (rev closed ++ [(last, cur)]) /\
     (* the records in those files, in that order, followed by the records still buffered = the records submitted *)
     flat_map file_view_qr (rev closed ++ [(last, cur)]) ++ blk_view_qr (x_blk x) = map Some (log_qr (x_new pre) ops) /\
-    flat_map file_view_mm (rev closed ++ [(last, cur)]) ++ blk_view_mm (x_blk x) = map Some (log_mm (x_new pre) ops).
+    flat_map file_view_mm (rev closed ++ [(last, cur)]) ++ blk_view_mm (x_blk x) = map Some (log_mm (x_new pre) ops) /\
+    (* every address-event key: its total count over all files and the buffered block = the number of accepted submissions *)
+    (forall k, fold_right (fun pb a => file_aec_total k pb + a) 0 (rev closed ++ [(last, cur)]) + dec_total k (blk_view_aec (x_blk x))
+               = log_aec (x_new pre) ops k).
 Proof.
   intros Tp A T x. destruct (history_outputs pre ops Tp A T) as (last & cur & closed & Hc & Hd & Hdone & Hr). fold x in Hc, Hd, Hdone, Hr.
   destruct (xrun_view ops (x_new pre) (x_new_den pre)) as (Vq & Vm & _). fold x in Vq, Vm.
+  pose proof (xrun_view_aec ops (x_new pre) (x_new_aec_inv pre)) as Va. fold x in Va.
   assert (V0q : view_qrs (x_new pre) = []).
   { unfold view_qrs, x_new. destruct pre as [| | | | |[|ma [|mi [|pv [|[[| | | |ps|]|] [|? ?]]]]]]; reflexivity. }
   assert (V0m : view_mms (x_new pre) = []).
   { unfold view_mms, x_new. destruct pre as [| | | | |[|ma [|mi [|pv [|[[| | | |ps|]|] [|? ?]]]]]]; reflexivity. }
+  assert (V0a : forall k, view_aec_total (x_new pre) k = 0).
+  { intros k. unfold view_aec_total, x_new. destruct pre as [| | | | |[|ma [|mi [|pv [|[[| | | |ps|]|] [|? ?]]]]]]; reflexivity. }
   rewrite V0q in Vq. rewrite V0m in Vm. cbn [app] in Vq, Vm.
   exists last, cur, closed. split; [rewrite Hc, map_rev; reflexivity|]. split; [exact Hd|]. split.
   - apply Forall_app. split; [apply Forall_rev; exact (Forall_inv_tail Hr)|constructor; [exact (Forall_inv Hr)|constructor]].
-  - rewrite <- Vq, <- Vm. unfold view_qrs, view_mms. rewrite Hdone.
-    rewrite !flat_map_app. cbn [flat_map]. rewrite !app_nil_r, !file_view_qr_eq, !file_view_mm_eq. cbn [snd].
-    rewrite !flat_map_flat_map.
-    split; f_equal; f_equal; apply flat_map_ext; intros pb; first [apply file_view_qr_eq|apply file_view_mm_eq].
+  - split; [|split].
+    + rewrite <- Vq. unfold view_qrs. rewrite Hdone.
+      rewrite !flat_map_app. cbn [flat_map]. rewrite !app_nil_r, !file_view_qr_eq. cbn [snd].
+      rewrite !flat_map_flat_map. f_equal. f_equal. apply flat_map_ext. intros pb. apply file_view_qr_eq.
+    + rewrite <- Vm. unfold view_mms. rewrite Hdone.
+      rewrite !flat_map_app. cbn [flat_map]. rewrite !app_nil_r, !file_view_mm_eq. cbn [snd].
+      rewrite !flat_map_flat_map. f_equal. f_equal. apply flat_map_ext. intros pb. apply file_view_mm_eq.
+    + intros k. specialize (Va k). rewrite V0a, N.add_0_l in Va. rewrite <- Va. unfold view_aec_total. rewrite Hdone. f_equal.
+      rewrite fold_total_app, fold_total_flat.
+      assert (Hf : forall l1 l2, fold_right (fun pb a => file_aec_total k pb + a) 0 (l1 ++ l2) =
+                                 fold_right (fun pb a => file_aec_total k pb + a) 0 l1 + fold_right (fun pb a => file_aec_total k pb + a) 0 l2).
+      { induction l1 as [|p l1 IH]; intros l2; cbn [app fold_right]; [lia|]. rewrite IH. lia. }
+      rewrite Hf. cbn [fold_right]. rewrite file_aec_total_eq. cbn [snd]. lia.
 Qed.
